@@ -462,9 +462,15 @@ func (app *App) buildTree() *App {
 		for _, route := range app.stack[m] {
 			treePathHash := 0
 			if len(route.routeParser.segs) > 0 && len(route.routeParser.segs[0].Const) >= maxDetectionPaths {
-				treePathHash = int(route.routeParser.segs[0].Const[0])<<16 |
-					int(route.routeParser.segs[0].Const[1])<<8 |
-					int(route.routeParser.segs[0].Const[2])
+				seg := route.routeParser.segs[0]
+				// A constant of exactly maxDetectionPaths bytes whose trailing slash is optional also
+				// matches the path without that slash. Such a path is too short to carry a hash and is
+				// looked up in the global bucket, so the route has to live there as well.
+				if len(seg.Const) > maxDetectionPaths || !seg.HasOptionalSlash {
+					treePathHash = int(seg.Const[0])<<16 |
+						int(seg.Const[1])<<8 |
+						int(seg.Const[2])
+				}
 			}
 			// create tree stack
 			tsMap[treePathHash] = append(tsMap[treePathHash], route)
